@@ -397,6 +397,59 @@ class Run:
             json.dump(payload, f, indent=1, default=str)
         return os.path.relpath(path, VERIF) if path.startswith(VERIF + os.sep) else path
 
+    def unresolved(self):
+        """something is no longer shown to hold (proof obligation, model build or correspondence) and no failing input
+        outside the known findings has been found yet: the failing-input search should go deeper"""
+        known = load_known()
+        open_sigs = {e['signature'] for e in known.get('open', []) if e.get('property') == self.prop}
+        if any(f['signature'] not in open_sigs for f in self.failures):
+            return False
+        if self.proof is not None and not self.proof['ok']:
+            return True
+        if getattr(self, 'driver_built', True) is False:
+            return True
+        return any(d.get('signature') not in open_sigs for d in self.disagreements)
+
+    def deep_search(self, check_script, budget_s=None):
+        """The quick generator found no failing input although something broke: run the thorough generator of the same
+        check in a child process (own evidence directory, bounded time) and adopt the failing inputs it finds.  Finding
+        none changes nothing: the verdict stays `no-failing-input-found`."""
+        import glob
+        import shutil
+        import signal as _sig
+        import tempfile
+        budget_s = budget_s or int(os.environ.get('VERIF_SEARCH_BUDGET_S', '900'))
+        tmp = tempfile.mkdtemp(prefix=f'verif_search_{self.prop}_')
+        env = dict(os.environ, VERIF_EVIDENCE_DIR=tmp, VERIF_NO_SEARCH='1', VERIF_SEED=str(self.seed), VERIF_BUDGET_S=str(budget_s))
+        info = {'tier': 'thorough', 'budget_s': budget_s, 'adopted': 0}
+        t0 = time.time()
+        try:
+            pr = subprocess.Popen([sys.executable, check_script, self.prop, '--tier', 'thorough'], env=env, stdout=subprocess.DEVNULL,
+                                  stderr=subprocess.DEVNULL, start_new_session=True)
+            try:
+                info['exit'] = pr.wait(timeout=budget_s + 30)
+            except subprocess.TimeoutExpired:
+                info['exit'] = 'timeout'
+                try:
+                    os.killpg(pr.pid, _sig.SIGKILL)
+                except OSError:
+                    pass
+            for fn in sorted(glob.glob(os.path.join(tmp, 'replays', '*.json'))):
+                try:
+                    with open(fn) as fh:
+                        pl = json.load(fh)
+                except Exception:
+                    continue
+                if pl.get('kind') == 'failing-input':
+                    self.fail(pl.get('family', 'deep-search'), pl.get('params'), pl.get('detail'), pl.get('signature'))
+                    info['adopted'] += 1
+        except Exception as e:   # the search is best effort
+            info['error'] = f'{type(e).__name__}: {e}'
+        finally:
+            shutil.rmtree(tmp, ignore_errors=True)
+        info['wall_s'] = round(time.time() - t0, 1)
+        self.extra['deep_search'] = info
+
     def finish(self, replaying=False):
         known = load_known()
         open_sigs = {e['signature']: e for e in known.get('open', []) if e.get('property') == self.prop}
